@@ -414,7 +414,7 @@ func mergeShards(rs []*ShardResult) *merged {
 			}
 		}
 		for _, c := range r.Notes {
-			if !seenS["n"+c] && len(m.notes) < 40 {
+			if !seenS["n"+c] && (len(m.notes) < 40 || (strings.HasPrefix(c, "divergence in ") && len(m.notes) < 60)) {
 				seenS["n"+c] = true
 				m.notes = append(m.notes, c)
 			}
